@@ -23,7 +23,7 @@ META = {
                    "(x - x_at_last_jacobian, y - y_at_last_jacobian). Inverse pairs by symbolic algebra on the terms (sympy, nothing is "
                    "executed): weights multiply in _x_to_knobs and divide in _knobs_to_x under the same guard; _scaled_from_native "
                    "inverts _scaled_to_native; the chain-rule factor of the view's Jacobian equals the derivative of the very map the "
-                   "view applies. Forward differences perturb x[i] by steps[i], divide by the same steps[i] and restore x[i].",
+                   "view applies. Forward differences perturb x[i] by steps[i], divide by the same steps[i] and restore x[i]. _get_x divides and _set_x multiplies by the knob weights (inverse pair).",
     "decides": "shape correctness, truncation consistency, algebraic inverse/derivative identities of the scaling maps, finite-difference template",
     "not_decided": "that the result is the minimum-norm solution, convergence of the first step, agreement with finite differences to rounding, signs",
     "assumptions": ["numpy shape semantics of @, dot, outer, diag, boolean-mask indexing as modelled in xsa/shapes.py"],
